@@ -238,9 +238,34 @@ func c03(c *ctx) {
 		}
 		w.assoc(0)
 		w.assoc(1)
+		if round == 1 {
+			w.markingReordersStoredPDR()
+		}
 		// every fourth incarnation also sends Update PDRs that move a rule to another match key
 		w.history(4+c.rng.Intn(10), round%4 == 3)
 		// end of the incarnation: the agent is killed with whatever it had installed
 		w.s.Kill()
+	}
+}
+
+// markingReordersStoredPDR: the scripted witness of the open finding C03-marking-reorders-stored-pdr (DESIGN 0.4): a PDR is
+// programmed while the marking returns early (another PDR shares no QER with it), and a later modification that does not carry
+// the PDR lets the marking move the session QER's ID to the end of its stored list.
+func (w *world) markingReordersStoredPDR() {
+	pdrs, fars, qers := w.genSession(4) // QER lists [4,1] [4,2] [4,3]: QER 4 is the session's
+	w.nextCP++
+	h, _ := w.est(0, w.nodes[0], w.nextCP, pdrs, fars, qers, "scripted-reorder")
+	if h == nil {
+		return
+	}
+	p13 := sysh.PdrIE{ID: 13, Prec: 4294967295, Src: u8p(1), UE: pdrs[1].UE, Sdf: strp("permit out tcp from any 443 to assigned"), Far: 13, Qers: []uint32{13}}
+	w.mod(0, h.up, modReq{cp: []sysh.PdrIE{p13}, cf: []sysh.FarIE{{ID: 13, Act: 1}}, cq: []sysh.QerIE{{ID: 13, Qfi: 7, Mbr: [2]uint64{6183, 5}}}}, "scripted-reorder")
+	p1 := pdrs[0]
+	p1.Prec = 65535
+	w.mod(0, h.up, modReq{up: []sysh.PdrIE{p1}}, "scripted-reorder") // sent as [4,1]; no QER common to all PDRs: nothing is reordered
+	w.mod(0, h.up, modReq{rp: []uint32{13}, rf: []uint32{13}, rq: []uint32{13}}, "scripted-reorder")
+	w.mod(0, h.up, modReq{uq: []sysh.QerIE{{ID: 84, Qfi: 3, Mbr: [2]uint64{111, 222}}}}, "scripted-reorder") // unknown QER: nothing is sent, the marking runs
+	if w.del(0, h.up, "scripted-reorder").Cause == 1 {
+		h.dead = true
 	}
 }
